@@ -285,7 +285,8 @@ def gen_device(rng) -> dict:
             pre = f"{seq} " if seq else ""
             roll = rng.random()
             if roll < 0.2:
-                entries.append(grammar.gen_remark(rng, seq=seq, uniq=f"{name}u{idx}")["text"])
+                entries.append(grammar.gen_remark(rng, seq=seq, uniq=f"{name}u{idx}",
+                                                  heading=rng.choice([None, "= ", "#"]))["text"])
             elif acl_type == "standard":
                 entries.append(pre + rng.choice(["permit", "deny"]) + " " + rng.choice(["any", f"host 10.{n}.{idx}.1", f"10.{n}.{idx}.0 0.0.0.255"]))
             elif roll < 0.45:
@@ -354,7 +355,7 @@ def execute(ctx, case: dict) -> None:
                 kw["group_by"] = case["group_by"]
             res = cisco_acl.acls(text, **kw)
             results.append(_result_key(res))
-            cisco_acl.aces(text, platform=platform)
+            cisco_acl.aces(text, platform=platform, group_by=case.get("group_by", ""))
             cisco_acl.addrgroups(text, platform=platform)
         except Exception:  # pylint: disable=broad-except
             results.append(None)  # judged by the taps
@@ -381,7 +382,7 @@ def run(ctx) -> None:
         if dev["acls"] and rng.random() < 0.3:
             names = rng.sample([a["name"] for a in dev["acls"]] + ["nope"], rng.randint(0, min(2, len(dev["acls"]))))
         case = {"dev": dev, "styles": [gen_style(rng), gen_style(rng)], "rseed": rng.randrange(1 << 30), "names": names,
-                "group_by": ""}
+                "group_by": rng.choice(["", "", "= ", "#"])}
         before = sum(STATS.values())
         execute(ctx, case)
         done += 1
